@@ -67,6 +67,7 @@ type c16client struct {
 	obs      []c16obs
 	closedAt uint64 // stamp at which the client closed its side (0 = open)
 	readerH  *sim.Handle
+	deafUntil time.Duration // the client does not read from its socket until then (no pongs either)
 	srv      *Connection
 	refused  bool
 }
@@ -149,6 +150,10 @@ func (w *c16world) connect(id int) *c16client {
 	w.logf("client %d connected", id)
 	c.readerH = s.Spawn(fmt.Sprintf("reader#%d", id), func() {
 		for {
+			if d := c.deafUntil - s.Now(); d > 0 {
+				s.Sleep(d) // a stalled client: frames and pings pile up unanswered
+				continue
+			}
 			_, data, err := ws.ReadMessage()
 			if err != nil {
 				return
@@ -338,7 +343,12 @@ func c16Run(s *sim.Sim, p *sim.Params) {
 			case r < 23:
 				o.kind = "ev-send"
 			default:
-				o.kind = "garbage"
+				if s.Choose(sim.SWork, 2) == 0 {
+					o.kind = "deaf"
+					o.d = []time.Duration{time.Second, 4 * time.Second, 8 * time.Second}[s.Choose(sim.SWork, 3)]
+				} else {
+					o.kind = "garbage"
+				}
 			}
 			ops[i] = o
 		}
@@ -403,6 +413,9 @@ func c16Run(s *sim.Sim, p *sim.Params) {
 					if handlersOnHub {
 						err = c.send(map[string]any{"type": "json", "event": "ev-send"})
 					}
+				case "deaf":
+					c.deafUntil = s.Now() + o.d
+					s.Fault("client-stops-reading")
 				case "garbage":
 					c.ws.SetWriteDeadline(time.Now().Add(2 * time.Second))
 					err = c.ws.WriteMessage(gws.TextMessage, []byte("{not json"))
